@@ -14,7 +14,8 @@ RULE = ('generated documents (twin profile with a strict separator after every c
         'equal it (both \\begin and \\end for an environment, nothing else); find_all(new) contains the target and '
         'count(old) dropped by one; re-parsing the new text gives the canonical tree of the edited syntax tree (when the '
         'new argument order is within the shape the parser attaches). Non-trivial = the target has a same-named twin '
-        'elsewhere, is nested >=2 deep, or the operation reorders >=2 groups; distinct by (source, operation, target)')
+        'elsewhere, is nested >=2 deep, or the operation reorders >=2 groups; distinct by (source, operation, target)'
+        '. Operations also include repeated renames with run-time names, sorts with tie-producing keys and reverse=True, and argument lists constructed from iterators and from edited lists')
 ASSUMPTIONS = [
     'after renaming \\item only the text and the search are judged (re-parsing reads an item body differently by design)',
     'argument orders outside [..]*{..}*[..]*{..}* are judged on text and search only',
